@@ -58,7 +58,7 @@ def extra_texts(rng, n):
 def run(chk, model_ok=True):
     rng = random.Random(chk.seed)
     quick = chk.tier == "quick"
-    n = 8000 if quick else 200000
+    n = 32000 if quick else 1600000
     st = streams.Streams(chk, model_ok)
     st.add("corpus", streams.corpus_lines("C08") + [
         "oidstr " + gens.hx(t) for t in [b"1.40.1", b"3.1.1", b"6.39.1", b"1.3", b"2.39.4294967295", b"1.3.4294967296",
@@ -127,7 +127,7 @@ def run(chk, model_ok=True):
     n_e2e = 0
     for peer in [e2e.Peer("v2c"), e2e.Peer("v1"), e2e.Peer("v3", auth=1, priv=2)]:
         s = sessions.Sess(env, peer, rng)
-        for _ in range(150 if quick else 4000):
+        for _ in range(600 if quick else 32000):
             k = rng.randrange(4)
             good = lambda: sessions.rand_oid_text(rng)
             badt = lambda: sessions.bad_oid_text(rng)
